@@ -45,6 +45,9 @@ CHECKS["C03"] = dict(text="Table kernels over their whole domains: the real defa
 CHECKS["C08"] = dict(text="Token level through the real scan/expand pass loop, parser and compiler: a family of programs with a FOR block whose count is a symbolic value 0..2 (thorough 3) given as a literal, an EQU name or EQU+1, the counter used in both operand fields, an optional nested block with its own symbolic count, an optional second block in sequence, an optional block label referenced from after the block, optional preceding instruction - the FOR program, its manual unrolling (built by the harness) and the by-construction meaning assemble to the same code and entry point; 1, 3 and 12 single-iteration blocks in sequence assemble to one instruction each.",
              note="Trusted: translator (witness replay), z3, Eval model (self-tested). Known finding (listed in known_findings.json, probed on every run): 13 or more blocks needing separate expansion passes are refused ('for loop depth exceeded'). Counts above 3, nesting depth 3, '&' concatenation and FOR inside EQU are outside the bound.",
              ref="5/C08")
+CHECKS["C14"] = dict(text="Decided by sequential symbolic execution: (copy isolation) after AddWarrior, arbitrary changes to the caller's WarriorData (code, entry point, name) do not show in what SpawnWarrior loads and queues, and a cycle of the battle changes neither the caller's data nor the simulator's pristine copy; (repeatability) the C03 program family with a chain of two EQUs assembles to the by-construction meaning under 12 (thorough 48) different permutations applied at every map range statement; (footprint) a whole job - assemble a text, create a reporting simulator with a StateRecorder, add, spawn, run two cycles - performs no store to any package-level variable after initialisation and leaves the shared configuration and warrior data unchanged, which is the condition under which jobs sharing only configuration values and warrior data cannot conflict.",
+             note="The schedule quantifier of the property (thread counts, interleavings under the race detector) is NOT explored: there is no interleaving model in this technique; the footprint obligation is a sufficient condition decided path by path within the bounds. Trusted: translator, z3, thread-safety of fmt and go/types internals.",
+             ref="5/C14")
 CHECKS = dict(sorted(CHECKS.items()))
 
 NOT_YET = {
